@@ -1,1 +1,39 @@
 //! Verification hooks: `path_select` (thin pass-through wrappers; feature `verif-hooks` only).
+//!
+//! Runs the real default path selector on a caller-supplied list of candidate paths (C24).
+use std::time::Duration;
+
+use noq::PathStats;
+
+pub use crate::socket::transports::{Addr, AddrKind, FourTuple};
+use crate::socket::{
+    biased_rtt_path_selector::BiasedRttPathSelector,
+    remote_map::{PathSelectionContext, PathSelectionData, PathSelector},
+};
+
+/// Calls `BiasedRttPathSelector::default().select(..)` on a context holding `paths` (one
+/// entry per path of a connection; `None` = statistics not readable) and `current`.
+///
+/// Returns the selected path, `None` for an empty selection (= keep the current one).
+pub fn select_default(
+    current: Option<&FourTuple>,
+    paths: &[(FourTuple, Option<Duration>)],
+) -> Option<FourTuple> {
+    let data: Vec<PathSelectionData<'_>> = paths
+        .iter()
+        .map(|(path, rtt)| {
+            let stats = rtt.map(|rtt| {
+                // PathStats is #[non_exhaustive]: Default + field assignment
+                let mut stats = PathStats::default();
+                stats.rtt = rtt;
+                stats
+            });
+            PathSelectionData::verif_new(path, stats)
+        })
+        .collect();
+    let ctx = PathSelectionContext::verif_new(current, data);
+    BiasedRttPathSelector::default()
+        .select(&ctx)
+        .selected()
+        .cloned()
+}
